@@ -199,9 +199,12 @@ func (sm *SessionManager) GetSession(r *http.Request) (*SessionData, error) {
 	sessionData := sm.sessionPool.Get().(*SessionData)
 	sessionData.request = r
 
+	// A cookie that cannot be decoded (corrupted, truncated, made under another key)
+	// is treated like a missing one: the store hands back a new, empty session for it,
+	// which replaces the unusable cookie on the next Save.
 	var err error
 	sessionData.mainSession, err = sm.store.Get(r, mainCookieName)
-	if err != nil {
+	if sessionData.mainSession == nil {
 		sm.sessionPool.Put(sessionData)
 		return nil, fmt.Errorf("failed to get main session: %w", err)
 	}
@@ -215,13 +218,13 @@ func (sm *SessionManager) GetSession(r *http.Request) (*SessionData, error) {
 	}
 
 	sessionData.accessSession, err = sm.store.Get(r, accessTokenCookie)
-	if err != nil {
+	if sessionData.accessSession == nil {
 		sm.sessionPool.Put(sessionData)
 		return nil, fmt.Errorf("failed to get access token session: %w", err)
 	}
 
 	sessionData.refreshSession, err = sm.store.Get(r, refreshTokenCookie)
-	if err != nil {
+	if sessionData.refreshSession == nil {
 		sm.sessionPool.Put(sessionData)
 		return nil, fmt.Errorf("failed to get refresh token session: %w", err)
 	}
